@@ -6,6 +6,17 @@ DRIVER = "go.mongodb.org/mongo-driver BSON codec and Extended JSON (case seriali
 RAPID = "pgregory.net/rapid v1.3.0 generation and shrinking"
 
 CHECKS = {
+    "C11": {
+        "level": "exploration",
+        "rule": "Four generated sub-checks. single: (document, one operator, one path, argument, upsert flag) applied through mongokit.Apply and compared byte-for-byte with the independent reference ref.ApplyOp inside the domain of DESIGN.md 8.2 (all 14 operators incl. $push modifiers, all numeric type pairs incl. overflow boundaries, dotted and numeric paths; the reference classifies decimal arithmetic, empty $each on a missing field, width-only $bit changes etc. as Outside), accept/reject agreement, untouched fields keep value and position. driver: through lungo's driver API (UpdateOne on a 2-document collection): rejected updates leave every byte unchanged, ModifiedCount=1 iff the stored bytes changed, _id stays first and unchanged, the other document is untouched, and for $set/$unset/$min/$max/$addToSet/$pull/$pullAll a second application changes nothing and reports 0 modified. multi: a combined update of 2-3 operators on distinct top-level fields equals applying the operators one at a time. positional: a.$[] and a.$[x] (with 1-2 array filters, elements chosen by the reference matcher) equal the same operator on the explicit element paths. Non-trivial: the update changed the document on a nested/array path (single), was rejected (counted separately), changed the stored document (driver/multi) or touched at least one selected element (positional). distinct = FNV-64 of the canonical case per sub-check (capped 300000 per shard).",
+        "assumptions": [REF + " (ref.ApplyOp, ref.Match)", DRIVER, RAPID, "agreement only inside DESIGN.md 8.2; statically conflicting update paths are kept out of the generators (lungo detects conflicts only between effective operators)"],
+        "subs": [
+            {"test": "TestProp_C11_single", "quick": 150000, "thorough": 14000000, "shards_q": 1, "shards_t": 14, "budget_q": 300, "budget_t": 1500},
+            {"test": "TestProp_C11_driver", "quick": 8000, "thorough": 700000, "shards_q": 1, "shards_t": 14, "budget_q": 300, "budget_t": 1500},
+            {"test": "TestProp_C11_multi", "quick": 60000, "thorough": 5600000, "shards_q": 1, "shards_t": 14, "budget_q": 300, "budget_t": 1500},
+            {"test": "TestProp_C11_positional", "quick": 60000, "thorough": 5600000, "shards_q": 1, "shards_t": 14, "budget_q": 300, "budget_t": 1500},
+        ],
+    },
     "C10": {
         "level": "exploration",
         "rule": "Three generated sub-checks over mongokit.Match. agree: (document, filter) pairs in the core domain of DESIGN.md section 8.1 (documents of depth <= 2 with scalars of every type incl. Decimal128/NaN/Inf, embedded documents, arrays of scalars or documents; filters from the operator grammar, depth <= 2, 60% of paths and 40% of operands taken from the document itself) compared with the independent reference matcher harness/ref/match.go; pairs the reference classifies Outside/Invalid are counted, not compared. laws: on the wide domain (nested arrays, regex, all operands) 17 logical laws ($nor = not $or, $ne/$nin/$not exact negations, $and/$or/implicit-and as conjunction/disjunction, $in = disjunction of $eq, $gte = $gt or $eq, $exists, double negation, commutativity/idempotence) evaluated by lungo on both sides. meta: result invariant under appending an unrelated field, wrapping the document one level deeper with prefixed paths, and an order-preserving consistent renaming of fields. Non-trivial: agree = a filter path resolves to an existing value and the filter has >= 2 operators or touches an array / fans out (both truth values counted in classes); laws/meta = the path(s) resolve to an existing value. distinct = FNV-64 of the canonical Extended JSON of the case, per sub-check (capped 300000 per shard).",
